@@ -456,6 +456,148 @@ def keepalive_cases(ctx: fw.Ctx) -> list[fw.Case]:
 
 
 # ------------------------------------------------------------------------------------------
+# keepalive() against an API with latency / apply-then-fail, cancelled at every await point
+# ------------------------------------------------------------------------------------------
+
+KA_HEADER = fw.STD_HEADER + 'From KV Require Import Model.PeerKa.\n'
+
+
+def drive_keepalive_cancel(case: dict) -> dict:
+    """One run of the real keepalive(): PATCHes take `pre` s until the server applies them and `post` s more until
+    the answer; `script[n]` makes the n-th PATCH fail before/after being applied; the task is cancelled at the
+    virtual instants `cancels` (0 = before its first step)."""
+    from kopf._cogs.clients import errors
+    from kopf._core.engines import peering
+    cfg = {'id': 'me', 'prio': 3, 'life': case['life'], 'name': 'default', 'autoclean': True}
+    loop = vloop.new_loop(start=0.0)
+    labels: list[str] = []
+    server: dict[str, Any] = {'rec': None, 'writes': []}
+    calls = {'n': 0}
+    wfail = {'v': False}
+
+    async def patch_obj(*, settings: Any, resource: Any, namespace: Any, name: str, patch: Any, logger: Any,
+                        silent: bool = False) -> tuple[Any, Any]:
+        st = dict(patch).get('status', {})
+        if list(st) != ['me'] or name != 'default':
+            labels.append('ODD')
+            return {}, None
+        idx = calls['n']
+        calls['n'] += 1
+        withdrawal = pn.CALLSITE.get() == 'touch-w'
+        labels.append('KCallW' if withdrawal else 'KCall')
+        mode = case['script'].get(str(idx), 'ok')
+        if case['pre']:
+            await asyncio.sleep(case['pre'])
+        if mode == 'fail-before':
+            labels.append('KFail')
+            wfail['v'] = wfail['v'] or withdrawal
+            raise errors.APIServerError('injected', status=500, headers={})
+        server['rec'] = st['me']
+        server['writes'].append((ms(loop.time()), st['me'] is not None))
+        labels.append('KApply')
+        if case['post']:
+            await asyncio.sleep(case['post'])
+        if mode == 'fail-after':
+            labels.append('KFail')
+            wfail['v'] = wfail['v'] or withdrawal
+            raise errors.APIServerError('injected', status=500, headers={})
+        labels.append('KReturn')
+        return {}, None
+
+    with pn.stubbed_patch_obj(patch_obj, withdrawal_site=True), pn.patched_randint(lambda a, b: 5), vloop.running(loop):
+        task = loop.spawn(peering.keepalive(namespace=None, resource=pn.RESOURCE, identity=peering.Identity('me'),
+                                            settings=pn.make_settings(cfg)))
+        task.add_done_callback(lambda t: labels.append('KDone'))
+        for tc in case['cancels']:
+            if tc > 0:
+                loop.run_until(lambda: False, tc)
+                loop.advance_to(tc)
+                loop.settle()
+            if task.done():
+                break
+            labels.append('KCancel')
+            task.cancel()
+            loop.settle()
+        # let everything in flight (the shielded withdrawal goes on after a second cancellation) finish
+        end = loop.time() + case['pre'] + case['post'] + 1
+        if not case['cancels']:
+            end = case['horizon']
+        loop.run_until(lambda: False, end)
+        loop.advance_to(end)
+        loop.settle()
+        alive = not task.done()
+        if alive:
+            task.cancel()           # not part of the case: just tidy up (not judged, not labelled)
+        if task.done() and not task.cancelled():
+            task.exception()
+    vloop.close_loop(loop)
+    return {'labels': labels, 'record_left': server['rec'] is not None, 'withdrawal_failed': wfail['v'],
+            'ended': not alive, 'writes': server['writes']}
+
+
+def keepalive_cancel_cases(ctx: fw.Ctx) -> list[fw.Case]:
+    out: list[fw.Case] = []
+    corpus = pn.load_corpus('kacancel')
+    cases: list[dict] = list(corpus)
+    grid = [k * 0.125 for k in range(0, 27)]
+    for life in (7, 0, 60):
+        for pre, post in ((0.0, 0.0), (0.25, 0.25), (0.0, 0.5), (0.5, 0.0)):
+            for script in ({}, {'0': 'fail-after'}, {'0': 'fail-before'}, {'1': 'fail-after'}, {'1': 'fail-before'}):
+                for tc in grid:
+                    cases.append({'life': life, 'pre': pre, 'post': post, 'script': script, 'cancels': [tc]})
+                    if pre + post > 0 and int(tc * 8) % 3 == 0:
+                        # a second cancellation while the shielded withdrawal is in flight
+                        cases.append({'life': life, 'pre': pre, 'post': post, 'script': script, 'cancels': [tc, tc + 0.125]})
+    # failing withdrawals (nothing can be promised then; the trace must still be a behaviour of the model)
+    for tc in (0.125, 0.375, 1.0):
+        for mode in ('fail-before', 'fail-after'):
+            cases.append({'life': 7, 'pre': 0.25, 'post': 0.25, 'script': {'1': mode}, 'cancels': [tc]})   # call #1 IS the withdrawal
+    seen: set[str] = set()
+    for case in cases:
+        res = drive_keepalive_cancel(case)
+        labels = res['labels']
+        data = {'case': case, 'observed': res}
+        if 'ODD' in labels or not res['ended']:
+            ctx.correspondence_break('T:kacancel', data)
+            continue
+        pos = cq.cbool(case['life'] > 0)
+        out.append(fw.Case(f"kaccepts {pos} {cq.clist(labels)} {cq.cbool(res['record_left'])}", data,
+                           diag=f"(krejected_at {pos} k0 {cq.clist(labels)} 0, krun {pos} k0 {cq.clist(labels)})"))
+        where = phase_at_cancel(labels)
+        ctx.count('kacancel_cancelled_in', where)
+        ctx.count('kacancel_script', json.dumps(case['script'], sort_keys=True))
+        key = ' '.join(labels)
+        if key not in seen:
+            seen.add(key)
+            ctx.nontriv(['kacancel', case['life'] > 0, key])
+        # ---- the property: ended by cancellation / failure => no record of this identity is left
+        if not res['withdrawal_failed'] and res['record_left']:
+            ctx.fail('keepalive() has ended but the peering object still holds a record of this identity',
+                     case, observed={'labels': labels, 'writes_ms': res['writes']}, expected='record withdrawn (status.<identity> = null)',
+                     sig='ka-exit-not-withdrawn')
+    return out
+
+
+def phase_at_cancel(labels: list[str]) -> str:
+    """Which await the (first) cancellation hit, read off the labels before it."""
+    if 'KCancel' not in labels:
+        return 'never'
+    before = labels[:labels.index('KCancel')]
+    if not before:
+        return 'before-first-step'
+    last = before[-1]
+    n_calls = before.count('KCall')
+    which = 'first' if n_calls <= 1 else 'later'
+    if last == 'KCall':
+        return f'{which}-touch:request-in-flight'
+    if last == 'KApply':
+        return f'{which}-touch:applied-unanswered'
+    if last == 'KReturn':
+        return 'sleep'
+    return 'withdrawal' if 'KCallW' in before else last
+
+
+# ------------------------------------------------------------------------------------------
 # known findings
 # ------------------------------------------------------------------------------------------
 
@@ -490,7 +632,7 @@ def run(ctx: fw.Ctx) -> int:
     logging.getLogger('kopf').setLevel(logging.CRITICAL + 1)
     logging.getLogger('asyncio').setLevel(logging.CRITICAL + 1)
     ctx.proofs()
-    ok, logtxt = fw.build_models(['Model/Peering.v', 'Model/PeerNet.v'])
+    ok, logtxt = fw.build_models(['Model/Peering.v', 'Model/PeerNet.v', 'Model/PeerKa.v'])
     if not ok:
         ctx.correspondence_break('model build', logtxt[-1500:])
         return ctx.finish(RULE)
@@ -499,7 +641,13 @@ def run(ctx: fw.Ctx) -> int:
     ctx.differential('event', HEADER, ev, shard=150)
     ka = keepalive_cases(ctx)
     ctx.differential('keepalive', HEADER, ka, shard=150)
-    ctx.cov['exhaustive'] = {'keepalive': 'lifetime 0..120 x jitter 5..10 = 726 runs of the real keepalive()'}
+    ctx.cov['exhaustive'] = {'keepalive': 'lifetime 0..120 x jitter 5..10 = 726 runs of the real keepalive()',
+                             'kacancel': 'cancellation on a 125 ms grid 0..3.25 s (every await: before the first step, request in '
+                                         'flight, applied-unanswered, sleep, later touch, the shielded withdrawal) x PATCH latency '
+                                         '(0/0, .25/.25, 0/.5, .5/0) x apply-then-fail / fail-before-apply of the 1st or 2nd PATCH '
+                                         'x lifetime 7/0/60'}
+    kc = keepalive_cancel_cases(ctx)
+    ctx.differential('kacancel', KA_HEADER, kc, shard=400)
 
     pn.run_networks(ctx, NET_HEADER, ctx.scale(80, 800))
     pn.run_worlds(ctx, ctx.scale(30, 600))
